@@ -126,7 +126,7 @@ async function check (job, resp, prefix, opts = {}) {
 module.exports = {
   id: 'C06',
   level: 'exploration',
-  rule: 'structural monitor on every output (corpus, catalogue, random, re-entrant and collision programs): each use of an injected temporary resolves to an injected let in an enclosing block without crossing a function/parameter/class-field boundary (same activation), is dominated by a write in an enclosing injected sequence, and no nested sequence reassigns a temporary between its write and its last read. Dynamic monitor: 12 re-entrancy templates (recursion, mutual recursion, world callback re-entry, closures invoked later, generators resumed alternately, nested generators, interleaved async jobs, getters, instance recursion, finally re-entry, labelled loops, switch) x 5x5 instrumented expressions are executed differentially with faults. Collision sweep: 22 placements of a reserved-prefix identifier (bindings, parameters incl. arrow/destructured/catch, references incl. excluded regions, labels, function/class names, hoisted var, captured closure, global) x 3 reserved names x 5 near-miss names: the rewrite must be refused, or leave the file unmodified, or produce code that V8 compiles and that runs like the input. distinct_nontrivial = distinct outputs analysed that contain >= 1 injected temporary, plus decided collision cases.',
+  rule: 'structural monitor on every output (corpus, catalogue, random, re-entrant and collision programs): each use of an injected temporary resolves to an injected let in an enclosing block without crossing a function/parameter/class-field boundary (same activation), is dominated by a write in an enclosing injected sequence, and no nested sequence reassigns a temporary between its write and its last read. Dynamic monitor: 12 re-entrancy templates (recursion, mutual recursion, world callback re-entry, closures invoked later, generators resumed alternately, nested generators, interleaved async jobs, getters, instance recursion, finally re-entry, labelled loops, switch) x 5x5 instrumented expressions are executed differentially with faults. Collision sweep: 22 placements of a reserved-prefix identifier (bindings, parameters incl. arrow/destructured/catch, references incl. excluded regions, labels, function/class names, hoisted var, captured closure, global) x 3 reserved names x 5 near-miss names: the rewrite must be refused, or leave the file unmodified, or produce code that V8 compiles and that runs like the input. distinct_nontrivial = distinct outputs analysed that contain >= 1 injected temporary, plus decided collision cases. Workload additions: the syntax zoo (49 programs x LF/CRLF/CR line endings), and operation splicing - zoo programs, every seventh catalogue program and every fifth random program also run with further enabled operations grafted onto randomly chosen sub-expressions in a value-preserving way ((x is a primitive ? OP(x) : 0, x)).',
   assumptions: ['temporaries of parameter defaults and class fields living in the enclosing activation are known finding D7', 'the collision oracle accepts refusal even where no clash is possible (refusing more is safe)'],
   plan (ctx) {
     const shards = []
